@@ -113,6 +113,13 @@ CHECKS = {
                      'must return a result object whenever its two length fields are in range.',
                 ref='7 C11', note='Trusted base: the sys.monitoring step meter (function entries + backward jumps of code under /repo; library code not metered), '
                      'the enumerated input menus. No random inputs.'),
+    'C17': dict(level='exploration', engine='E3',
+                technique='small-scope exhaustive enumeration from bytes: decode -> REST json_to_bin -> reference reading of the produced octets -> decode',
+                text='Starting from the octets of every extended-community kind the decoder names x field boundary values, every '
+                     'community class (all well-known values) and large-community field boundaries: the agent\'s decoded text is '
+                     'posted to POST /v1/peer/<ip>/json_to_bin in an Established session, the produced attribute must denote the same '
+                     'value under an independent reading and render the identical text again; all ordered pairs of kinds in one request.',
+                ref='7 C17', note=E3_NOTE),
 }
 
 NOT_YET = 'check not built yet in this session (see DESIGN.md section 7 for the plan); not claimed'
